@@ -97,7 +97,7 @@ Fixpoint echoes (tr : list event) : list str :=
   end.
 
 Definition is_exit_start (e : event) : bool := match e with EvStart SExit _ => true | _ => false end.
-Definition is_exited_end (e : event) : bool := match e with EvEnd _ true => true | _ => false end.
+Definition is_exited_end (e : event) : bool := match e with EvEnd _ (Some _) => true | _ => false end.
 
 (** args: <frontend c|f|s> <fixed 0|1> <fuel> <nfuns> tokens…
     out : <D|X|NOFUEL|BAD> <status> <exit trap registered when the program proper ended>
